@@ -60,4 +60,8 @@ def aspApply (e : R → K) (shape : Nat × Nat) (tf : Nat → Nat → K) (f : Ar
 def asp (e : R → K) (shape : Nat × Nat) (wvl dx z : R) (f : Array (Array K)) : Array (Array K) :=
   aspApply e shape (aspTf2 e shape wvl dx z) f
 
+/-- `angular_spectrum(field, wvl, dx, z, Q)` with `Q ≠ 1`: the field is zero-padded to `out` first (and not cropped back) -/
+def aspPadded (e : R → K) (shp out : Nat × Nat) (off : Int × Int) (wvl dx z : R) (f : Array (Array K)) : Array (Array K) :=
+  asp e out wvl dx z (pad2 shp out off f)
+
 end Model.C02
